@@ -16,6 +16,9 @@ its statement-level consequences:
   `braces_bind_outer` (only braces give the else to the outer `if`), `printer_inserts_braces` and
   `parse_print_open_then` (the printer emits exactly those braces for a tree whose then-branch ends
   in an else-less `if`, and the text parses to the tree with the `block` node);
+* `refParseStmt_print_norm : SWF (normS s) = true → refParseStmt (printStmt s) = some (normS s)` for
+  ALL trees (`normS` = the printer's braces as `block` nodes, `printStmt_norm`: same text), and
+  `normS_id : SWF s = true → normS s = s`;
 * `decl_only_as_item` (a declaration is a block item, not a statement) and `decide`d token-level
   examples.
 
@@ -160,6 +163,176 @@ theorem parse_print_open_then (c : CExpr) (t e : CStmt) (hc : WF c = true) (ht :
     refParseStmt (printStmt (.ifElse c t e)) = some (.ifElse c (.block [t]) e) := by
   rw [printer_inserts_braces c t e h]
   exact refParseStmt_print _ (by rw [SWF_ifElse, SWF_block1 ht]; simp [CStmt.openIf, *])
+
+/-! ## All trees: the printer's braces as a normalisation
+
+`normS` puts the `block` node where the printer prints braces (then-branches that end in an
+else-less `if`), everywhere in the tree, statement-expressions included.  The print is unchanged
+by it, so for EVERY tree whose normal form is well formed the text parses to the normal form; on
+well-formed trees `normS` is the identity and this is `refParseStmt_print` again. -/
+
+mutual
+def normE : CExpr → CExpr
+  | .atom s => .atom s
+  | .call f args => .call f (normEs args)
+  | .post o a => .post o (normE a)
+  | .un o a => .un o (normE a)
+  | .cast t a => .cast t (normE a)
+  | .bin o a b => .bin o (normE a) (normE b)
+  | .tern c a b => .tern (normE c) (normE a) (normE b)
+  | .assign o a b => .assign o (normE a) (normE b)
+  | .stmtExpr items e => .stmtExpr (normItems items) (normE e)
+termination_by structural e => e
+def normEs : List CExpr → List CExpr
+  | [] => []
+  | a :: rest => normE a :: normEs rest
+def normS : CStmt → CStmt
+  | .expr e => .expr (normE e)
+  | .empty => .empty
+  | .block items => .block (normItems items)
+  | .if_ c t => .if_ (normE c) (normS t)
+  | .ifElse c t e => .ifElse (normE c) (if t.openIf then .block [normS t] else normS t) (normS e)
+  | .for_ i c s b => .for_ (normE i) (normE c) (normE s) (normS b)
+  | .decl t x => .decl t x
+  | .declInit t x e => .declInit t x (normE e)
+def normItems : List CStmt → List CStmt
+  | [] => []
+  | s :: rest => normS s :: normItems rest
+end
+
+theorem prec_normE (e : CExpr) : prec (normE e) = prec e := by
+  cases e <;> simp [normE, prec]
+
+theorem bodyArgs_norm : ∀ (args : List CExpr), (∀ a ∈ args, body (normE a) = body a) →
+    bodyArgs (normEs args) = bodyArgs args
+  | [], _ => by simp [normEs, bodyArgs]
+  | [a], h => by simp [normEs, bodyArgs, h a (by simp)]
+  | a :: b :: rest, h => by
+    have ih := bodyArgs_norm (b :: rest) (fun x hx => h x (by simp [hx]))
+    simp only [normEs] at ih ⊢
+    simp [bodyArgs, h a (by simp), ih]
+
+theorem prItems_norm : ∀ (items : List CStmt), (∀ s ∈ items, prS (normS s) = prS s) →
+    prItems (normItems items) = prItems items
+  | [], _ => by simp [normItems, prItems]
+  | s :: rest, h => by
+    simp [normItems, prItems, h s (by simp), prItems_norm rest (fun x hx => h x (by simp [hx]))]
+
+theorem openIf_norm : ∀ s : CStmt, (normS s).openIf = s.openIf :=
+  (CExpr.ind2 (P := fun _ => True) (S := fun s => (normS s).openIf = s.openIf)
+    (by intros; trivial) (by intros; trivial) (by intros; trivial) (by intros; trivial)
+    (by intros; trivial) (by intros; trivial) (by intros; trivial) (by intros; trivial)
+    (by intros; trivial)
+    (by intros; simp [normS, CStmt.openIf]) (by simp [normS, CStmt.openIf])
+    (by intros; simp [normS, CStmt.openIf]) (by intros; simp [normS, CStmt.openIf])
+    (by intro c t e _ _ ihe; simpa [normS, CStmt.openIf] using ihe)
+    (by intro i c s b _ _ _ ihb; simpa [normS, CStmt.openIf] using ihb)
+    (by intros; simp [normS, CStmt.openIf]) (by intros; simp [normS, CStmt.openIf])).2
+
+/-- Normalisation does not change the text. -/
+theorem print_norm : (∀ e : CExpr, body (normE e) = body e) ∧ (∀ s : CStmt, prS (normS s) = prS s) := by
+  apply CExpr.ind2
+  · intro s; simp [normE]
+  · intro f args ih; simp [normE, body, bodyArgs_norm args ih]
+  · intro o a ih; simp [normE, body, prec_normE, ih]
+  · intro o a ih; simp [normE, body, prec_normE, ih]
+  · intro t a ih; simp [normE, body, prec_normE, ih]
+  · intro o a b iha ihb
+    have hp : prec (.bin o (normE a) (normE b)) = prec (.bin o a b) := rfl
+    simp only [normE, body]
+    rw [hp, prec_normE, prec_normE, iha, ihb]
+  · intro c a b ihc iha ihb; simp [normE, body, prec_normE, ihc, iha, ihb]
+  · intro o a b iha ihb; simp [normE, body, prec_normE, iha, ihb]
+  · intro items e ihs ihe; simp [normE, body, prItems_norm items ihs, ihe]
+  · intro e ih; simp [normS, prS, ih]
+  · simp [normS]
+  · intro items ih; simp [normS, prS, prItems_norm items ih]
+  · intro c t ihc iht; simp [normS, prS, ihc, iht]
+  · intro c t e ihc iht ihe
+    by_cases h : t.openIf = true
+    · simp [normS, prS, h, ihc, iht, ihe, CStmt.openIf, prItems]
+    · have h' : t.openIf = false := by simpa using h
+      simp [normS, prS, h', ihc, iht, ihe, openIf_norm]
+  · intro i c s b ihi ihc ihs ihb; simp [normS, prS, ihi, ihc, ihs, ihb]
+  · intro t x; simp [normS]
+  · intro t x e ih; simp [normS, prS, ih]
+
+theorem printStmt_norm (s : CStmt) : printStmt (normS s) = printStmt s := print_norm.2 s
+
+/-- **Round trip for all trees, up to the printer's braces**: whenever the normal form is well
+    formed (operator tables, declarations inside braces), the text of `s` parses to the normal form
+    of `s`. -/
+theorem refParseStmt_print_norm (s : CStmt) (h : SWF (normS s) = true) :
+    refParseStmt (printStmt s) = some (normS s) := by
+  rw [← printStmt_norm]; exact refParseStmt_print _ h
+
+theorem normEs_id : ∀ (args : List CExpr), (∀ a ∈ args, normE a = a) → normEs args = args
+  | [], _ => by simp [normEs]
+  | a :: rest, h => by
+    simp [normEs, h a (by simp), normEs_id rest (fun x hx => h x (by simp [hx]))]
+
+theorem normItems_id : ∀ (items : List CStmt), (∀ s ∈ items, normS s = s) → normItems items = items
+  | [], _ => by simp [normItems]
+  | a :: rest, h => by
+    simp [normItems, h a (by simp), normItems_id rest (fun x hx => h x (by simp [hx]))]
+
+theorem WFs_mem {args} (h : WFs args = true) : ∀ a ∈ args, WF a = true := by
+  induction args with
+  | nil => intro a ha; cases ha
+  | cons x xs ih =>
+    simp [WFs] at h
+    intro a ha
+    cases ha with
+    | head => exact h.1
+    | tail _ hm => exact ih h.2 a hm
+
+/-- Well-formed trees are normal forms. -/
+theorem norm_id : (∀ e : CExpr, WF e = true → normE e = e) ∧
+    (∀ s : CStmt, ∀ b, SWFp b s = true → normS s = s) := by
+  apply CExpr.ind2 (P := fun e => WF e = true → normE e = e)
+    (S := fun s => ∀ b, SWFp b s = true → normS s = s)
+  · intro s _; simp [normE]
+  · intro f args ih h
+    simp [WF] at h
+    simp [normE, normEs_id args (fun a ha => ih a ha (WFs_mem h a ha))]
+  · intro o a ih h; simp [WF] at h; simp [normE, ih h.2]
+  · intro o a ih h; simp [WF] at h; simp [normE, ih h.2]
+  · intro t a ih h; simp [WF] at h; simp [normE, ih h]
+  · intro o a b iha ihb h; simp [WF] at h; simp [normE, iha h.1.2, ihb h.2]
+  · intro c a b ihc iha ihb h; simp [WF] at h; simp [normE, ihc h.1.1, iha h.1.2, ihb h.2]
+  · intro o a b iha ihb h; simp [WF] at h; simp [normE, iha h.1.2, ihb h.2]
+  · intro items e ihs ihe h
+    simp [WF] at h
+    simp [normE, ihe h.2, normItems_id items (fun s hs => ihs s hs true (WF_items h.1 s hs))]
+  · intro e ih b h; simp [SWFp] at h; simp [normS, ih h]
+  · intro b _; simp [normS]
+  · intro items ih b h
+    simp [SWFp] at h
+    simp [normS, normItems_id items (fun s hs => ih s hs true (WF_items h s hs))]
+  · intro c t ihc iht b h; simp [SWFp] at h; simp [normS, ihc h.1, iht false h.2]
+  · intro c t e ihc iht ihe b h
+    simp [SWFp] at h
+    simp [normS, ihc h.1.1.1, iht false h.1.1.2, ihe false h.2, h.1.2]
+  · intro i c s b ihi ihc ihs ihb x h
+    simp [SWFp] at h
+    simp [normS, ihi h.1.1.1, ihc h.1.1.2, ihs h.1.2, ihb false h.2]
+  · intro t x b _; simp [normS]
+  · intro t x e ih b h; simp [SWFp] at h; simp [normS, ih h.2]
+
+theorem normS_id (s : CStmt) (h : SWF s = true) : normS s = s := norm_id.2 s false h
+
+-- non-vacuity: a tree that is NOT well formed (its then-branch ends in an else-less `if`, nested
+-- twice, once inside a statement-expression) but whose normal form is
+example : SWF (.ifElse (.atom "a") (.for_ (.atom "i") (.atom "j") (.atom "k")
+      (.if_ (.stmtExpr [.ifElse (.atom "p") (.if_ (.atom "q") .empty) .empty] (.atom "r")) .empty))
+      .empty) = false := by decide
+example : refParseStmt (printStmt (.ifElse (.atom "a") (.for_ (.atom "i") (.atom "j") (.atom "k")
+      (.if_ (.stmtExpr [.ifElse (.atom "p") (.if_ (.atom "q") .empty) .empty] (.atom "r")) .empty))
+      .empty))
+    = some (.ifElse (.atom "a") (.block [.for_ (.atom "i") (.atom "j") (.atom "k")
+      (.if_ (.stmtExpr [.ifElse (.atom "p") (.block [.if_ (.atom "q") .empty]) .empty] (.atom "r"))
+        .empty)]) .empty) :=
+  refParseStmt_print_norm _ (by decide)
 
 /-- A declaration is a block item, not a statement: no statement starts with a type name (at any
     fuel, whatever follows), while the item parser accepts `T x;` directly inside braces. -/
